@@ -21,6 +21,7 @@
 (*   arith            C01  balances / cost base / gain arithmetic          *)
 (*   sfl              C02  superficial decision, amount, ratio, manual SFL *)
 (*   adjust, conserve C03  automatic adjustments, conservation identity    *)
+(*   sflreject        C02+C04  a declared superficial loss accepted/refused *)
 (*   reject, inv, chain, message, panic                                    *)
 (*                    C04  accept/reject equivalence, invariants, prefix   *)
 (*   order            C07  processing order / row identity                 *)
@@ -178,7 +179,8 @@ StepRow(mm0, d) ==
   LET s == Step(mm.S, mm.REG, R, i) IN
   IF ~s.ok
   THEN (IF Borderline(mm, i) THEN Ambig(s.why)
-        ELSE FailV("reject", "accepted a row the rules reject: " \o s.why))
+        ELSE FailV(IF s.why \in {"sfl-mismatch", "sfl-without-loss"} THEN "sflreject" ELSE "reject",
+                   "accepted a row the rules reject: " \o s.why))
   ELSE
   LET S2 == s.S
       sflI == IF d.hasSfl THEN D(d.sfl) ELSE RZero
@@ -236,7 +238,8 @@ EndSeg(mm, seg) ==
              s == Step(mm.S, mm.REG, mm.R, jj) IN
          IF s.ok
          THEN (IF Borderline(mm, mm.i) THEN Ambig("rejection within rounding noise")
-               ELSE FailV("reject", "rejected a history the rules accept, at row " \o ToString(mm.R[mm.i].idx) \o ": " \o seg.msg))
+               ELSE FailV(IF mm.R[jj].hasSfl THEN "sflreject" ELSE "reject",
+                          "rejected a history the rules accept, at row " \o ToString(mm.R[mm.i].idx) \o ": " \o seg.msg))
          ELSE Chk(\E n \in DOMAIN seg.msgDays : seg.msgDays[n] \in OffendingDays(mm.R, mm.i, s.why), "message",
                   "rejection message does not name a date of the offending transaction: " \o seg.msg,
               Ok(Idle))))
